@@ -143,8 +143,18 @@ Dog == Class("Dog", <<CArg("name", FALSE, TRUE, "Str", Absent), CArg("tricks", T
 Point == Class("Point", <<>>, <<>>, <<Def("x", TRUE, "Int", Absent), Def("y", TRUE, "Int", Absent)>>,
                <<Method("__init__", TRUE, <<Param("x", "Int", Absent), Param("y", "Int", I(2))>>, "", <<>>, <<FAssign(V("self"), "x", V("x")), FAssign(V("self"), "y", Bin("*", V("y"), I(10)))>>),
                  Method("sum", FALSE, <<>>, "Int", <<>>, <<Expr(Bin("+", Field(V("self"), "x"), Field(V("self"), "y")))>>)>>)
+\* two parents whose constructors are observable (they print, and both set the same field): the order of the class header counts
+Engine == Class("Engine", <<>>, <<>>, <<Def("power", TRUE, "Int", I(0))>>,
+                <<Method("__init__", TRUE, <<Param("kind", "Str", Absent)>>, "", <<>>, <<P(V("kind")), FAssign(V("self"), "power", I(100))>>)>>)
+Turbo == Class("Turbo", <<>>, <<>>, <<Def("power", TRUE, "Int", I(0))>>,
+               <<Method("__init__", TRUE, <<Param("kind", "Str", Absent)>>, "", <<>>, <<P(V("kind")), FAssign(V("self"), "power", I(50))>>)>>)
+Car == Class("Car", <<>>, <<Parent("Engine", <<StrL("v8")>>), Parent("Turbo", <<StrL("twin")>>)>>, <<Def("seats", TRUE, "Int", I(0))>>,
+             <<Method("__init__", TRUE, <<Param("seats", "Int", Absent)>>, "", <<>>, <<FAssign(V("self"), "seats", V("seats")), P(V("seats"))>>)>>)
+Van == Class("Van", <<CArg("seats", TRUE, TRUE, "Int", Absent)>>, <<Parent("Turbo", <<StrL("single")>>), Parent("Engine", <<StrL("v6")>>)>>, <<>>, <<>>)
 ClassProbes ==
-    { Probe("counter", <<Counter>>, <<>>, <<Def("c", TRUE, "", New("Counter", <<I(10)>>)), P(MCall(V("c"), "bump", <<I(2)>>)), P(MCall(V("c"), "bump", <<I(3)>>)), P(MCall(V("c"), "total", <<>>)),
+    { Probe("two-parents-explicit-init", <<Engine, Turbo, Car>>, <<>>, <<Def("car", TRUE, "", New("Car", <<I(4)>>)), P(Field(V("car"), "power")), P(Field(V("car"), "seats"))>>, FALSE),
+      Probe("two-parents-class-arguments", <<Engine, Turbo, Van>>, <<>>, <<Def("van", TRUE, "", New("Van", <<I(7)>>)), P(Field(V("van"), "power")), P(Field(V("van"), "seats"))>>, FALSE),
+      Probe("counter", <<Counter>>, <<>>, <<Def("c", TRUE, "", New("Counter", <<I(10)>>)), P(MCall(V("c"), "bump", <<I(2)>>)), P(MCall(V("c"), "bump", <<I(3)>>)), P(MCall(V("c"), "total", <<>>)),
                                             P(Field(V("c"), "start")), P(Field(V("c"), "label")), Expr(MCall(V("c"), "reset", <<>>)), P(Field(V("c"), "count"))>>, FALSE),
       Probe("counter-step", <<Counter>>, <<>>, <<Def("c", TRUE, "", New("Counter", <<I(1), I(5)>>)), P(MCall(V("c"), "bump", <<I(2)>>)), FAssign(V("c"), "count", I(100)), P(MCall(V("c"), "total", <<>>))>>, FALSE),
       Probe("two-instances", <<Counter>>, <<>>, <<Def("c1", TRUE, "", New("Counter", <<I(0)>>)), Def("c2", TRUE, "", New("Counter", <<I(0)>>)), Expr(MCall(V("c1"), "bump", <<I(7)>>)),
